@@ -64,3 +64,21 @@ pub fn run_xargs(ctx: &Ctx, flags: &[&str], initial: &[Vec<u8>], input: &[u8], s
     let _ = std::fs::remove_dir_all(&dir);
     RunResult { status: status_code(out.status), stdout: out.stdout, stderr: out.stderr, invocations }
 }
+
+/// `find ARGS | xargs -0 fu-recorder` through a real pipe. Returns (find status, xargs status, invocations).
+pub fn run_pipe0(ctx: &Ctx, find_args: &[String], cwd: &std::path::Path) -> (i32, i32, Vec<Invocation>) {
+    let dir = ctx.scratch("pipe");
+    let log = dir.join("log");
+    let mut f = Command::new(ctx.bin("find"));
+    f.args(find_args).current_dir(cwd).stdin(Stdio::null()).stdout(Stdio::piped()).stderr(Stdio::null());
+    let mut fchild = f.spawn().expect("spawn find");
+    let fout = fchild.stdout.take().unwrap();
+    let mut x = Command::new(ctx.bin("xargs"));
+    x.arg("-0").arg(ctx.recorder()).current_dir(cwd).env("FU_REC_LOG", &log);
+    x.stdin(Stdio::from(fout)).stdout(Stdio::null()).stderr(Stdio::null());
+    let xst = x.status().expect("run xargs");
+    let fst = fchild.wait().expect("wait find");
+    let inv = parse_log(&log);
+    let _ = std::fs::remove_dir_all(&dir);
+    (status_code(fst), status_code(xst), inv)
+}
